@@ -194,7 +194,10 @@ def obligations(prop_vfile, build):
 def print_assumptions(prop_vfile):
     """re-run coqc on the property file (output to scratch) and return what
     its Print Assumptions commands print"""
-    out_vo = os.path.join(BUILD, 'pa_' + os.path.basename(prop_vfile) + 'o')
+    # (coqc -o wants the same base name: a scratch directory of its own)
+    pad = os.path.join(BUILD, 'pa')
+    os.makedirs(pad, exist_ok=True)
+    out_vo = os.path.join(pad, os.path.basename(prop_vfile) + 'o')
     try:
         rc, out = _run(['timeout', '600', 'coqc', '-Q', '.', 'YV', '-o',
                         out_vo, prop_vfile], cwd=COQ, timeout=700)
@@ -206,8 +209,7 @@ def print_assumptions(prop_vfile):
         except OSError:
             pass
     try:
-        os.remove(os.path.join(BUILD, 'pa_' + os.path.basename(
-            prop_vfile)[:-2] + '.glob'))
+        os.remove(os.path.join(pad, os.path.basename(prop_vfile)[:-2] + '.glob'))
     except OSError:
         pass
     return out.strip()
@@ -398,6 +400,14 @@ def finish(pid, tier, seed, t0, build, res, prop_vfile, level_text=''):
         status = 1
 
     pa = print_assumptions(prop_vfile) if not proof_broken else 'not run'
+    if 'Axioms:' in pa:
+        # a property theorem rests on an axiom: it is not proved any more
+        path = write_replay(pid, {'property': pid, 'kind': 'no-failing-input-found',
+                                  'broken_obligations': {
+                                      'axioms_under_property_theorems': pa[-3000:]}})
+        print('VIOLATION property=%s replay=%s no-failing-input-found' % (pid, path))
+        violations += 1
+        status = 1
     cov = {
         'obligations': total,
         'discharged': done,
@@ -411,6 +421,8 @@ def finish(pid, tier, seed, t0, build, res, prop_vfile, level_text=''):
         'files_in_cone': files,
         'theorems_of_property_file': thm_names,
         'print_assumptions': pa[-4000:],
+        'print_assumptions_closed': pa.count('Closed under the global context'),
+        'print_assumptions_axioms': pa.count('Axioms:'),
         'correspondence_disagreements': len(res.disagreements),
         'oracle_failures': len(res.failures),
         'streams': res.streams,
